@@ -164,7 +164,7 @@ func (g *igen) gen(s *jsonv.Value, depth int) *jsonv.Value {
 	case "object":
 		return g.genObject(s, depth, minimal)
 	}
-	return RandomJSON(g.rng, 1)
+	return randomJSON(g.rng, 1, true)
 }
 
 func (g *igen) genAllOf(s, a *jsonv.Value, depth int) *jsonv.Value {
@@ -340,6 +340,18 @@ func (g *igen) genNumber(s *jsonv.Value, integer bool) *jsonv.Value {
 	case kmax == nil:
 		kmax = new(big.Int).Add(kmin, big.NewInt(window))
 	}
+	// keep |value| <= 2^53 (integers) resp. 2^40 (fractions stay exact in binary64)
+	limit := new(big.Rat).SetInt64(maxSafe)
+	if !integer {
+		limit.SetInt64(1 << 40)
+	}
+	kl := ratFloor(new(big.Rat).Quo(limit, r.step))
+	if nkl := new(big.Int).Neg(kl); kmin.Cmp(nkl) < 0 && kmax.Cmp(nkl) >= 0 {
+		kmin = nkl
+	}
+	if kmax.Cmp(kl) > 0 && kmin.Cmp(kl) <= 0 {
+		kmax = kl
+	}
 	if kmin.Cmp(kmax) > 0 {
 		return nil
 	}
@@ -466,7 +478,7 @@ func (g *igen) genArray(s *jsonv.Value, depth int, minimal bool) *jsonv.Value {
 			if items != nil {
 				e = g.gen(items, depth+1)
 			} else {
-				e = RandomJSON(g.rng, 1)
+				e = randomJSON(g.rng, 1, true)
 			}
 			if e == nil {
 				return nil
@@ -518,7 +530,7 @@ func (g *igen) genObject(s *jsonv.Value, depth int, minimal bool) *jsonv.Value {
 		if ap != nil && ap.Kind == jsonv.Object {
 			return g.gen(ap, depth+1)
 		}
-		return RandomJSON(g.rng, 1)
+		return randomJSON(g.rng, 1, true)
 	}
 
 	var members []jsonv.Member
@@ -613,7 +625,11 @@ var randomNames = []string{"a", "b", "id", "name", "value", "x_extra_0", "kind",
 // null, booleans, integers (small, and around ±2^31, ±2^53), dyadic fractions,
 // strings (plain, non-ASCII, escape-heavy, line separators), arrays and objects
 // (no repeated member names).
-func RandomJSON(rng *ev.Rand, depth int) *jsonv.Value {
+func RandomJSON(rng *ev.Rand, depth int) *jsonv.Value { return randomJSON(rng, depth, false) }
+
+// randomJSON with safe set keeps integers within ±2^53 and strings free of
+// line separators (used for the unconstrained parts of valid instances).
+func randomJSON(rng *ev.Rand, depth int, safe bool) *jsonv.Value {
 	c := rng.Intn(100)
 	if depth <= 0 && c >= 70 {
 		c = rng.Intn(70)
@@ -625,7 +641,7 @@ func RandomJSON(rng *ev.Rand, depth int) *jsonv.Value {
 		return jsonv.NewBool(rng.Bool())
 	case c < 36:
 		switch r := rng.Intn(100); {
-		case r < 70:
+		case r < 70 || safe:
 			return intVal(int64(rng.Intn(41) - 20))
 		case r < 80:
 			return intVal(int64(rng.Intn(2)*2-1) * (int64(1)<<31 + int64(rng.Intn(5)-2)))
@@ -639,7 +655,7 @@ func RandomJSON(rng *ev.Rand, depth int) *jsonv.Value {
 	case c < 70:
 		g := &igen{rng: rng}
 		s := g.text(rng.Intn(9))
-		if rng.Chance(10) {
+		if rng.Chance(10) && !safe {
 			s += ev.Pick(rng, []string{"\r", " ", " ", "\r\n", "\n"})
 		}
 		if rng.Chance(15) {
@@ -650,7 +666,7 @@ func RandomJSON(rng *ev.Rand, depth int) *jsonv.Value {
 		n := rng.Intn(5)
 		e := make([]*jsonv.Value, n)
 		for i := range e {
-			e[i] = RandomJSON(rng, depth-1)
+			e[i] = randomJSON(rng, depth-1, safe)
 		}
 		return jsonv.NewArray(e...)
 	}
@@ -666,7 +682,7 @@ func RandomJSON(rng *ev.Rand, depth int) *jsonv.Value {
 			continue
 		}
 		seen[name] = true
-		m = append(m, jsonv.Member{Name: name, Value: RandomJSON(rng, depth-1)})
+		m = append(m, jsonv.Member{Name: name, Value: randomJSON(rng, depth-1, safe)})
 	}
 	return jsonv.NewObject(m...)
 }
